@@ -93,14 +93,14 @@ def _match_alarm(signum, frame):
 def check_case(ex, case):
     import signal
     ex.stats.obligations += 1
-    old = signal.signal(signal.SIGALRM, _match_alarm)
-    signal.setitimer(signal.ITIMER_REAL, MATCH_BUDGET_S)
+    old = signal.signal(signal.SIGVTALRM, _match_alarm)      # CPU time
+    signal.setitimer(signal.ITIMER_VIRTUAL, MATCH_BUDGET_S)
     try:
         try:
             sigma = run_match(case)
         finally:
-            signal.setitimer(signal.ITIMER_REAL, 0)
-            signal.signal(signal.SIGALRM, old)
+            signal.setitimer(signal.ITIMER_VIRTUAL, 0)
+            signal.signal(signal.SIGVTALRM, old)
     except MatchTimeout:
         # pymbolic's commutative-associative unifier is exponential in the number of equal factors; a pair on which the
         # real match() does not answer within the budget is outside the bound (counted undecided, never discharged)
@@ -347,17 +347,28 @@ def _random_case(rng):
     if r < 0.75:
         sigma = {}
         tgt = drop_identity(tpl, sigma, set(free), rng) if rng.random() < 0.4 else tpl
+        self_bind = rng.random() < 0.25
         for v in free:
             if v in sigma:
                 continue
             if v in ("f", "g", "<func>h"):
                 sigma[v] = ["v", rng.choice(["f", "gg", "g"])]
+            elif self_bind and rng.random() < 0.7:
+                # the target spells this part exactly like the template (binding v -> v): sub-terms that are
+                # structurally identical on both sides still constrain the free variables inside them
+                sigma[v] = ["v", v]
             else:
                 sigma[v] = gs.num(rng.choice([0, 0, 1]))
-        tgt = shuffle_comm(dsl_subst(tgt, sigma), rng)
-        if rng.random() < 0.25:
-            # near miss: perturb one leaf of the target
+        tgt = dsl_subst(tgt, sigma)
+        if not self_bind or rng.random() < 0.5:
+            tgt = shuffle_comm(tgt, rng)
+        if rng.random() < (0.6 if self_bind else 0.25):
+            # near miss: perturb one leaf of the target (for a self-binding: one occurrence of a free variable, so that
+            # two occurrences of it disagree)
             subs = [(p, s) for p, s in exprdsl.subterms(tgt) if s[0] in ("v", "c")]
+            if self_bind:
+                occ = [(p, s) for p, s in subs if s[0] == "v" and s[1] in free and sigma.get(s[1]) == ["v", s[1]]]
+                subs = occ or subs
             if subs:
                 p, s = rng.choice(subs)
                 tgt = exprdsl.replace_at(tgt, p, gs.leaf_num())
